@@ -27,6 +27,8 @@ from .values import (
     js_pow,
     norm_number,
     to_integer,
+    is_nan,
+    JS_WHITESPACE,
 )
 from .errors import (
     JSError,
@@ -1924,52 +1926,71 @@ class VM:
         """Create a bound string method."""
         vm = self  # Reference for closures
 
+        def arg(args, i):
+            """Argument i, or undefined when it was not passed."""
+            return args[i] if len(args) > i else UNDEFINED
+
+        def clamped(value, default):
+            """A position argument: ToIntegerOrInfinity clamped to [0, len(s)];
+            an undefined argument means `default`."""
+            if value is UNDEFINED:
+                return default
+            return min(max(to_integer(value), 0), len(s))
+
+        def search_string(args):
+            """The search string argument (a missing one is the string 'undefined')."""
+            return to_string(arg(args, 0))
+
+        def reject_regexp(args, name):
+            if isinstance(arg(args, 0), JSRegExp):
+                raise JSTypeError(
+                    f"First argument to String.prototype.{name} must not be a regular expression"
+                )
+
         def charAt(*args):
-            idx = to_integer(args[0]) if args else 0
+            idx = to_integer(arg(args, 0))
             if 0 <= idx < len(s):
                 return s[idx]
             return ""
 
         def charCodeAt(*args):
-            idx = to_integer(args[0]) if args else 0
+            idx = to_integer(arg(args, 0))
             if 0 <= idx < len(s):
                 return ord(s[idx])
             return float("nan")
 
         def indexOf(*args):
-            search = to_string(args[0]) if args else ""
-            start = to_integer(args[1]) if len(args) > 1 else 0
-            if start < 0:
-                start = 0
-            return s.find(search, start)
+            return s.find(search_string(args), clamped(arg(args, 1), 0))
 
         def lastIndexOf(*args):
-            search = to_string(args[0]) if args else ""
-            end = to_integer(args[1]) if len(args) > 1 else len(s)
-            # Python's rfind with end position
-            return s.rfind(search, 0, end + len(search))
+            search = search_string(args)
+            position = arg(args, 1)
+            if position is UNDEFINED or is_nan(to_number(position)):
+                start = len(s)  # NaN means "search the whole string"
+            else:
+                start = clamped(position, len(s))
+            # The match has to begin at or before start
+            return s.rfind(search, 0, start + len(search))
 
         def substring(*args):
-            start = to_integer(args[0]) if args else 0
-            end = to_integer(args[1]) if len(args) > 1 else len(s)
-            # Clamp and swap if needed
-            if start < 0:
-                start = 0
-            if end < 0:
-                end = 0
+            start = clamped(arg(args, 0), 0)
+            end = clamped(arg(args, 1), len(s))
             if start > end:
                 start, end = end, start
             return s[start:end]
 
         def slice_fn(*args):
-            start = to_integer(args[0]) if args else 0
-            end = to_integer(args[1]) if len(args) > 1 else len(s)
-            # Handle negative indices
-            if start < 0:
-                start = max(0, len(s) + start)
-            if end < 0:
-                end = max(0, len(s) + end)
-            return s[start:end]
+            def relative(value, default):
+                if value is UNDEFINED:
+                    return default
+                index = to_integer(value)
+                if index < 0:
+                    return max(0, len(s) + index)
+                return min(index, len(s))
+
+            start = relative(arg(args, 0), 0)
+            end = relative(arg(args, 1), len(s))
+            return s[start:end] if start < end else ""
 
         def split(*args):
             sep = args[0] if args else UNDEFINED
@@ -2029,13 +2050,13 @@ class VM:
             return s.upper()
 
         def trim(*args):
-            return s.strip()
+            return s.strip(JS_WHITESPACE)
 
         def trimStart(*args):
-            return s.lstrip()
+            return s.lstrip(JS_WHITESPACE)
 
         def trimEnd(*args):
-            return s.rstrip()
+            return s.rstrip(JS_WHITESPACE)
 
         def concat(*args):
             result = s
@@ -2052,19 +2073,16 @@ class VM:
             return s * count
 
         def startsWith(*args):
-            search = to_string(args[0]) if args else ""
-            pos = to_integer(args[1]) if len(args) > 1 else 0
-            return s[pos:].startswith(search)
+            reject_regexp(args, "startsWith")
+            return s.startswith(search_string(args), clamped(arg(args, 1), 0))
 
         def endsWith(*args):
-            search = to_string(args[0]) if args else ""
-            length = to_integer(args[1]) if len(args) > 1 else len(s)
-            return s[:length].endswith(search)
+            reject_regexp(args, "endsWith")
+            return s[: clamped(arg(args, 1), len(s))].endswith(search_string(args))
 
         def includes(*args):
-            search = to_string(args[0]) if args else ""
-            pos = to_integer(args[1]) if len(args) > 1 else 0
-            return search in s[pos:]
+            reject_regexp(args, "includes")
+            return s.find(search_string(args), clamped(arg(args, 1), 0)) >= 0
 
         def regex_exec(regexp, string):
             """One step of the lastIndex protocol on a script-level RegExp object."""
